@@ -11,7 +11,7 @@ def outs_of(case, slot):
     """list of (op index, [bits]) for feeding ops addressed to `slot`."""
     res = []
     for i, (o, ob) in enumerate(zip(case.ops, case.obs)):
-        if o[0] in ("n", "b", "i") and o[1] == slot:
+        if o[0] in ("n", "b", "i", "j") and o[1] == slot:
             res.append((i, ob))
     return res
 
@@ -82,7 +82,7 @@ def scale_ops(ops, k, keep_volume=True):
     for o in ops:
         if o[0] == "n":
             out.append((o[0], o[1], o[2] * f))
-        elif o[0] in ("b", "i"):
+        elif o[0] in ("b", "i", "j"):
             out.append((o[0], o[1]) + tuple(v * f for v in o[2:6]) + ((o[6],) if keep_volume else (o[6] * f,)))
         else:
             out.append(o)
@@ -130,7 +130,7 @@ def sprinkle_resets(cases, every=3):
         seen[ind] = seen.get(ind, 0) + 1
         if seen[ind] % every != 1 or getattr(c, "harness_only", False):
             continue
-        idxs = [i for i, o in enumerate(c.ops) if o[0] in ("n", "b", "i")]
+        idxs = [i for i, o in enumerate(c.ops) if o[0] in ("n", "b", "i", "j")]
         p = max([1] + [int(x) for x in c.ops[0][3:6] if isinstance(x, int)])
         if len(idxs) < p + 6:
             continue
